@@ -426,6 +426,7 @@ class Collada(object):
                 if libnode is not None:
                     tried_loading = []
                     succeeded = False
+                    first = len(self.nodes)
                     for node in libnode.findall(self.tag('node')):
                         try:
                             N = scene.loadNode(self, node, {})
@@ -452,9 +453,14 @@ class Collada(object):
                                     self.nodes.append(N)
                                     succeeded = True
                         tried_loading = next_tried
-                    if len(tried_loading) > 0:
-                        for node, ex in tried_loading:
+                    # nodes that had to wait for their instances go back to document order
+                    position = dict((child, i) for i, child in enumerate(libnode))
+                    self.nodes[first:] = sorted(self.nodes[first:], key=lambda n: position[n.xmlnode])
+                    for node, ex in tried_loading:
+                        try:
                             raise DaeBrokenRefError(ex.msg)
+                        except DaeError as ex:
+                            self.handleError(ex)
 
     def _loadScenes(self):
         """Load scene library."""
